@@ -79,3 +79,64 @@ func H_C11_client_extra() {
 		}
 	})
 }
+
+// H_C11_client_cancel_unread: a stream's caller stops reading with m responses delivered to
+// the connection but unread, then cancels (at any point after opening). The stream must be
+// torn down (its reset written), and a probe call started afterwards must complete.
+func H_C11_client_cancel_unread() {
+	m := vfParam("m", 3)
+	conn := newZZConn()
+	conn.wch = make(chan *goatorepo.Rpc, 8)
+	rm := NewRpcMultiplexer(conn)
+	ctx, cancel := context.WithCancel(context.Background())
+	opened := make(chan struct{})
+	streamDone := false
+	probeDone := false
+	var probeErr error
+	pv := vfByte("probe")
+	go func() {
+		id, rw, teardown, err := rm.NewStreamReadWriter(ctx)
+		vfAssert(err == nil && id == 1, "stream-registered")
+		cs := NewStream(ctx, id, "/s/m", rw, teardown, "c", "s", nil, time.Time{})
+		close(opened)
+		<-ctx.Done() // the caller never receives; it only waits for its own cancellation
+		out := new(testproto.Msg)
+		err = cs.RecvMsg(out)
+		vfAssert(err != nil, "receive-after-cancel-fails")
+		streamDone = true
+		var b *goatorepo.Body
+		b, probeErr = rm.CallUnaryMethod(context.Background(), zzHdr(), &goatorepo.Body{Data: []byte{7}}, nil)
+		vfAssert(probeErr != nil || (len(b.Data) == 1 && b.Data[0] == pv), "probe-reply-is-its-own")
+		probeDone = true
+	}()
+	go func() {
+		<-opened
+		for i := 0; i < m; i++ {
+			conn.in <- &goatorepo.Rpc{Id: 1, Header: zzRespHdr(), Body: &goatorepo.Body{Data: []byte{8, byte(i + 1), 0, 0, 0}}}
+		}
+		// answer the probe (id 2) when its request shows up (the reset of stream 1 may come first)
+		for {
+			w := <-conn.wch
+			if w.Id == 2 {
+				conn.in <- &goatorepo.Rpc{Id: 2, Header: zzRespHdr(), Body: &goatorepo.Body{Data: []byte{pv}}, Trailer: &goatorepo.Trailer{}}
+				return
+			}
+		}
+	}()
+	go func() {
+		<-opened
+		cancel()
+	}()
+	vfAtQuiescence(func() {
+		vfAssert(streamDone, "cancelled-caller-returns")
+		vfAssert(probeDone && probeErr == nil, "probe-started-after-the-abandonment-completes")
+		resets := 0
+		for _, w := range conn.out {
+			if w.Id == 1 && w.Reset_ != nil {
+				resets++
+			}
+		}
+		vfAssert(resets == 1, "reset-for-the-abandoned-stream-written-exactly-once")
+		vfReach("checked")
+	})
+}
